@@ -124,6 +124,11 @@ class VList(V):
     def __repr__(s): return 'VList<%s>(len=%s)' % (kname(s.kind), s.len)
 
 
+class VClosedToks(VList):
+    """A token line whose last piece did not end with a separator: nothing may be appended to it any more (the next piece would run into the last token)."""
+    pass
+
+
 class VCList(V):
     """Concrete-length list of arbitrary values (literal tables, small tuples lists)."""
     def __init__(s, items): s.items = list(items)
@@ -236,6 +241,7 @@ def fresh_like(name, v):
     if isinstance(v, VTok): return VTok(fresh(name, Tok))
     if isinstance(v, VPy): return VPy(fresh(name, Py))
     if isinstance(v, VEnumSym): return VEnumSym(v.cls, fresh(name, I))
+    if isinstance(v, VClosedToks): raise TypeError('a closed token line cannot be modified by a loop')
     if isinstance(v, VList): return fresh_of_kind(name, ('list', v.kind))
     if isinstance(v, VTuple): return VTuple([fresh_like('%s.%d' % (name, i), x) for i, x in enumerate(v.items)])
     if isinstance(v, VNone): return v
